@@ -15,3 +15,11 @@ claim("C10", "DESIGN.md 3/C10",
       "every series of length<=4 (thorough 5) x every irregular gap sequence over {1,2,60,172800}s x 2 time carriers x 6 thresholds for rate_of_change_test, every track of length<=3 (thorough 4) over 8 positions x gaps x threshold pairs built from the track's own hop speeds for speed_test, and every unequal length combination; each call compared per point with the scalar reference",
       "trusts geographiclib as the distance oracle (called per pair with explicit lat/lon) and IEEE division",
       TECH_TREE)
+claim("C11", "DESIGN.md 3/C11",
+      "every series of length 0..5 (reduced duration grid at 6; thorough 7/8) over {0,1,3,NaN} x 3 sampling steps x 49 (suspect,fail) duration pairs (non-multiples, < one step, > series) x 5 tolerances is run on the real flat_line_test and compared per point with the scalar reference",
+      "regular sampling only (as the statement); trusts refmodel/qc.py",
+      TECH_TREE)
+claim("C12", "DESIGN.md 3/C12",
+      "every series of length 1..4 (thorough 5) x 5 regular/irregular time axes x both check types x whole-series and windowed modes x min_obs/min_period settings x threshold pairs on both sides of (and, for range, exactly on) the spread, compared per point with the scalar reference",
+      "std within 1e-9 of a threshold skipped (statement excludes it); range windows holding a missing value accept UNKNOWN too",
+      TECH_TREE)
